@@ -19,17 +19,33 @@
 (* PadFix = FALSE (no copy of Packet.PaddingSize into the header) violates  *)
 (* RestUnchanged for packets that carry the padding length in the           *)
 (* deprecated field only.                                                   *)
+(*                                                                          *)
+(* Overlapping calls.  writeRTP holds the track's read lock for the whole   *)
+(* fan-out, Bind / Unbind take the write lock: a Bind or Unbind called      *)
+(* while a write is under way waits, i.e. Write is atomic with respect to   *)
+(* them.  WriteDuring(shape, cop, i) is that situation as one action: the   *)
+(* write has reached its first sender when cop(i) is called from another    *)
+(* goroutine.  Lock = "held" (pion): the write completes over the bindings  *)
+(* it started with, then cop takes effect.  Lock = "snapshot" (named wrong  *)
+(* alternative): the write iterates an unlocked copy of the slice header    *)
+(* while Unbind swap-deletes in the shared backing array -- the last sender *)
+(* gets the packet twice, the removed one never.  The normative reading of  *)
+(* "every currently bound sender exactly once" for overlapping calls is     *)
+(* linearizability: the deliveries must be right for the set bound before   *)
+(* or for the set bound after the concurrent call.                          *)
 EXTENDS StaticRTPOps
 
 CONSTANTS NIds,      \* sender contexts are 1..NIds
           MaxSteps,  \* bound on the history length
           Copy,      \* "pooled" (pion) | "inplace"
           Unbinder,  \* "swapdelete" (pion) | "poplast"
-          PadFix     \* TRUE (pion) | FALSE
+          PadFix,    \* TRUE (pion) | FALSE
+          Lock       \* "held" (pion: fan-out under the read lock) | "snapshot"
 
-VARIABLES bseq, bset, n, last, out, cafter
+VARIABLES bseq, bset, n, last, out, cafter,
+          bset0      \* ghost: the senders bound when the last write began
 
-vars == <<bseq, bset, n, last, out, cafter>>
+vars == <<bseq, bset, n, last, out, cafter, bset0>>
 graphview == bseq    \* for the run that only emits the labelled graph
 
 Senders == 1..NIds
@@ -63,23 +79,23 @@ Loop(bs, pkt, acc) ==
                              !.hpad = IF PadFix /\ pkt.ppad # 0 /\ pkt.hpad = 0 THEN pkt.ppad ELSE pkt.hpad]
        IN Loop(Tail(bs), p1, Append(acc, [id |-> b.id, ssrc |-> p1.ssrc, pt |-> p1.pt, rest |-> WriterRest(p1)]))
 
-NoAct == [op |-> "init", id |-> 0, api |-> "none", cc |-> 0, ext |-> "none", pad |-> "none", exp |-> "ok"]
+NoAct == [op |-> "init", id |-> 0, api |-> "none", cc |-> 0, ext |-> "none", pad |-> "none", exp |-> "ok", cop |-> "none"]
 
 Init == /\ bseq = <<>> /\ bset = {} /\ n = 0 /\ last = NoAct
-        /\ out = <<>> /\ cafter = CallerPkt("WriteRTP", 0, "none", "none")
+        /\ out = <<>> /\ cafter = CallerPkt("WriteRTP", 0, "none", "none") /\ bset0 = {}
 
 Bind(i) ==
   /\ i \notin BoundIds                    \* a PeerConnection binds a context once
   /\ bseq' = Append(bseq, [id |-> i, ssrc |-> Ctx[i].ssrc, pt |-> Ctx[i].pt])
   /\ bset' = bset \cup {i}
   /\ last' = [NoAct EXCEPT !.op = "Bind", !.id = i]
-  /\ UNCHANGED <<out, cafter>>
+  /\ UNCHANGED <<out, cafter, bset0>>
 
 \* a context whose negotiated codecs do not contain the track's codec: ErrUnsupportedCodec, no binding
 BindBad(i) ==
   /\ i \notin BoundIds
   /\ last' = [NoAct EXCEPT !.op = "BindBad", !.id = i, !.exp = "err"]
-  /\ UNCHANGED <<bseq, bset, out, cafter>>
+  /\ UNCHANGED <<bseq, bset, out, cafter, bset0>>
 
 FirstIdx(i) == CHOOSE k \in DOMAIN bseq : bseq[k].id = i /\ \A j \in DOMAIN bseq : bseq[j].id = i => k <= j
 
@@ -92,7 +108,7 @@ Unbind(i) ==
      ELSE /\ UNCHANGED bseq
           /\ last' = [NoAct EXCEPT !.op = "Unbind", !.id = i, !.exp = "err"]   \* ErrUnbindFailed
   /\ bset' = bset \ {i}
-  /\ UNCHANGED <<out, cafter>>
+  /\ UNCHANGED <<out, cafter, bset0>>
 
 Write(api, cc, ext, pad) ==
   /\ api = "Write" => pad # "legacy"          \* the wire format has one padding length
@@ -100,13 +116,41 @@ Write(api, cc, ext, pad) ==
          r == Loop(bseq, c, <<>>)
      IN /\ out' = r.out
         /\ cafter' = IF Copy = "inplace" /\ api = "WriteRTP" THEN r.pkt ELSE c
-  /\ last' = [op |-> "Write", id |-> 0, api |-> api, cc |-> cc, ext |-> ext, pad |-> pad, exp |-> "ok"]
+  /\ last' = [op |-> "Write", id |-> 0, api |-> api, cc |-> cc, ext |-> ext, pad |-> pad, exp |-> "ok", cop |-> "none"]
+  /\ bset0' = bset
   /\ UNCHANGED <<bseq, bset>>
+
+\* swap-delete of the first record with id i, in place: the array keeps its length, the last slot
+\* keeps its old content (a slice header taken earlier still sees all of it)
+SwapDeleted(arr, i) == [arr EXCEPT ![CHOOSE k \in DOMAIN arr : arr[k].id = i /\ \A j \in DOMAIN arr : arr[j].id = i => k <= j] = arr[Len(arr)]]
+
+\* A write that has reached its first sender when cop(i) -- "Bind" of an unbound sender or "Unbind" of
+\* a bound one -- is called from another goroutine.
+WriteDuring(api, cop, i) ==
+  /\ bseq # <<>>
+  /\ \/ cop = "Unbind" /\ i \in BoundIds
+     \/ cop = "Bind" /\ i \notin BoundIds
+  /\ LET c    == CallerPkt(api, 0, "none", "none")
+         rec  == [id |-> i, ssrc |-> Ctx[i].ssrc, pt |-> Ctx[i].pt]
+         after == IF cop = "Bind" THEN Append(bseq, rec)
+                  ELSE SubSeq(SwapDeleted(bseq, i), 1, Len(bseq) - 1)
+         \* what the rest of the fan-out walks: the bindings the write started with (lock held), or the
+         \* same slice header over the array as Unbind left it (Bind appends beyond the header's length)
+         rest == IF Lock = "held" \/ cop = "Bind" THEN Tail(bseq) ELSE Tail(SwapDeleted(bseq, i))
+         r1   == Loop(<<Head(bseq)>>, c, <<>>)
+         r    == Loop(rest, r1.pkt, r1.out)
+     IN /\ out' = r.out
+        /\ cafter' = IF Copy = "inplace" /\ api = "WriteRTP" THEN r.pkt ELSE c
+        /\ bseq' = after
+  /\ bset0' = bset
+  /\ bset' = IF cop = "Bind" THEN bset \cup {i} ELSE bset \ {i}
+  /\ last' = [op |-> "WriteDuring", id |-> i, api |-> api, cc |-> 0, ext |-> "none", pad |-> "none", exp |-> "ok", cop |-> cop]
 
 Next ==
   /\ n < MaxSteps /\ n' = n + 1
   /\ \/ \E i \in Senders : Bind(i) \/ BindBad(i) \/ Unbind(i)
      \/ \E api \in APIs, cc \in CCs, ext \in Exts, pad \in Pads : Write(api, cc, ext, pad)
+     \/ \E api \in APIs, cop \in {"Bind", "Unbind"}, i \in Senders : WriteDuring(api, cop, i)
 
 Spec == Init /\ [][Next]_vars
 
@@ -118,13 +162,17 @@ TypeOK == /\ bset \subseteq Senders /\ n \in 0..MaxSteps
 ModelBindingsAreSet == BoundIds = bset /\ Len(bseq) = Cardinality(bset)
 
 Written == last.op = "Write"
+Overlapped == last.op = "WriteDuring"
 LastCaller == CallerPkt(last.api, last.cc, last.ext, last.pad)
 
 ModelEachBoundOnce   == Written => EachBoundOnce(bset, out)
 ModelNoneAfterUnbind == Written => OnlyBound(bset, out)
 ModelRewritten       == Written => RewrittenHeader(Ctx, out)
 ModelRestUnchanged   == Written => RestUnchanged(CallerRest(LastCaller), out)
-ModelCallerUntouched == Written => CallerUntouched(LastCaller, cafter)
+ModelCallerUntouched == (Written \/ Overlapped) => CallerUntouched(LastCaller, cafter)
+\* overlapping calls: right for the senders bound before, or for those bound after, the concurrent call
+ModelLinearizable    == Overlapped => (LinearizedOn(bset0, out) \/ LinearizedOn(bset, out))
+ModelOverlapRewritten == Overlapped => (RewrittenHeader(Ctx, out) /\ RestUnchanged(CallerRest(LastCaller), out))
 
 \* ---- emission of the labelled state graph ------------------------------------------------------
 EmitInitInv == (last.op = "init") => PrintT(<<"VERIF_INIT", ToJson(St)>>)
